@@ -15,6 +15,7 @@ TBIN == 1  TMENU == 2  TTEMPLATE == 4  TSTATIC == 8  TSTATE == 16  TUSER == 32
 Types == {TBIN, TMENU, TTEMPLATE, TSTATIC, TSTATE, TUSER}
 Sessioned(t) == t > TSTATIC
 Translatable(t) == t \in {TMENU, TTEMPLATE, TSTATIC}
+MaskTypes(m) == {t \in Types : (m \div t) % 2 = 1}     \* the data types named by a lock mask (one bit per type)
 SafeLock == {TBIN, TMENU, TTEMPLATE, TSTATIC}              \* read-only for the VM: locked by default
 
 \* h = [pfx, sid, lang, lock (set of types), seal]
@@ -38,7 +39,7 @@ Apply(g, o) ==
     [] o.op = "setctxlang" -> Res([g EXCEPT !.h.clang = o.s], "ok", "")
     [] o.op = "setlock"    -> IF h.seal THEN Res(g, "err", "")                       \* sealing cannot be undone
                               ELSE IF o.t = 0 THEN Res([g EXCEPT !.h.lock = @ \cup SafeLock, !.h.seal = TRUE], "ok", "")
-                              ELSE Res([g EXCEPT !.h.lock = IF o.b THEN @ \cup {o.t} ELSE @ \ {o.t}], "ok", "")
+                              ELSE Res([g EXCEPT !.h.lock = IF o.b THEN @ \cup MaskTypes(o.t) ELSE @ \ MaskTypes(o.t)], "ok", "")  \* o.t is a bit mask
     [] o.op = "put" -> IF h.pfx = 0 THEN Res(g, "err", "")
                        ELSE IF h.pfx \in h.lock THEN Res(g, "err", "")               \* refused while locked, nothing changes
                        ELSE Res([g EXCEPT !.m = PutM(@, Cur(h, o.k, EffLang(h)), o.v)], "ok", "")
